@@ -14,7 +14,8 @@ C07 — model of the filter registry and of the content filters.
 
 (c) loading: every branch of `TextFileProvider.load()` / `_stream()` (spec_factory.py 284-330): grep on a
     host, whole-file read, truncated read of the last MAX_CONTENT_SIZE bytes (`readLines`), post-filter
-    off-host (`loadFile`, `streamFile`); and repeated loads of one datasource (`loadArchive`).
+    off-host (`loadFile`, `streamFile`); repeated loads of one datasource (`loadArchive`); hydration of
+    a serialized archive, single and list branch (`hydrateResults`).
 
 Strings are `List Char`; a Python `dict` is an insertion-ordered association list; Python `set`
 iteration order is whatever order the lists in the `World` carry (the harness sends the order the real
@@ -390,5 +391,30 @@ def streamFile (grep : List Str → List Str → List Str) (maxSize : Nat) (host
   if loaded && !(loadFile grep maxSize host fs file).isEmpty then loadFile grep maxSize host fs file
   else if host && !fs.isEmpty then grep (keys fs) file
   else file
+
+/-! ### hydration of a serialized archive (serde.py 130-135, 154-164; spec_factory.py deserializers) -/
+
+/-- the `results` entry of one meta-data document: nothing, one serialized provider, or the list a
+`multi_output` spec (glob_file, foreach_collect / foreach_execute, container specs) produced; each
+provider is the lines of its data file in the archive -/
+inductive Results
+  | none
+  | single (file : List Str)
+  | multi (files : List (List Str))
+
+/-- `deserialize(d, root, ctx, ds).content`: every deserializer builds a `SerializedOutputProvider`
+with `ds` = the spec, i.e. a TextFileProvider off-host whose filters are the spec's filters NOW -/
+def rebuild (maxSize : Nat) (fs : Allow) (file : List Str) : List Str := loadFile grepF maxSize false fs file
+
+/-- `unmarshal(doc["results"], ds=spec)` followed by `.content` of every rebuilt provider -/
+def hydrateResults (maxSize : Nat) (fs : Allow) : Results → List (List Str)
+  | .none => []
+  | .single file => [rebuild maxSize fs file]
+  | .multi files => files.map (rebuild maxSize fs)
+
+def Results.elements : Results → List (List Str)
+  | .none => []
+  | .single file => [file]
+  | .multi files => files
 
 end IV.Filters
